@@ -142,6 +142,20 @@ def workload(tier, seed, scale=1.0):
                 cmds.append(cmd_tostr(sv, radix, kind, cell=('tostr-pool', radix, v.bit_length() // 32)))
                 cmds.append(cmd_fromstr(tostr(sv, radix).encode(), radix, kind, cell=('fromstr-pool', radix, v.bit_length() // 32)))
             cmds.append(cmd_fromradix(radix_digits_le(v, radix), radix, 'U', cell=('fromradix-pool', radix, v.bit_length() // 32)))
+    # the whole byte alphabet: every single byte 0..=255 between / before / after valid digits, for every text radix
+    # (membership of each byte in the digit alphabet of each radix is decided exhaustively)
+    for radix in range(2, 37):
+        for byte in range(256):
+            if quick and (byte + radix) % 3 and not (0x10 <= byte <= 0x7f):
+                continue
+            kind = 'UI'[(byte + radix) % 2]
+            for tmpl in ((b'1', b'1'), (b'', b'0')) if (not quick or byte % 2 == radix % 2) else ((b'1', b'1'),):
+                raw = tmpl[0] + bytes([byte]) + tmpl[1]
+                try:
+                    raw.decode('utf-8')
+                    cmds.append(cmd_fromstr(raw, radix, kind, cell=('alphabet', radix, byte)))
+                except UnicodeDecodeError:
+                    cmds.append(cmd_parsebytes(raw, radix, kind, cell=('alphabet-nonutf8', radix, byte)))
     # long inputs in power-of-two radices whose top partial word is zero (normalisation of parse results)
     for radix in (2, 4, 8, 16, 32, 64, 128, 256):
         bits = radix.bit_length() - 1
